@@ -3,5 +3,4 @@ CONSTANTS
   Universe = "M6"
   MaxLines = 5
 INVARIANT MachineOK
-INVARIANT GenInv
 CHECK_DEADLOCK FALSE
